@@ -5,6 +5,7 @@ import json, os, shutil, subprocess, sys, time
 VERIF = os.path.dirname(os.path.dirname(os.path.abspath(__file__)))
 REPO = "/repo"
 ENV = dict(os.environ, GOFLAGS="-mod=mod", GOPROXY="off", GOSUMDB="off", GOTOOLCHAIN="local")
+SCRATCH_CACHE = "/tmp/mut/gocache"  # scratch worktrees get their own build cache, removed afterwards
 
 
 def sh(cmd, cwd=None, timeout=1800):
@@ -19,6 +20,7 @@ def confirm(mid, src):
     rc, out = sh("git -C %s worktree add -q --detach %s HEAD" % (REPO, wt))
     assert rc == 0, out
     res = {}
+    ENV["GOCACHE"] = SCRATCH_CACHE
     try:
         place = meta.get("demo_place", "spine/").strip("/")
         demo_dst = os.path.join(wt, place, "zz_seed_demo_test.go")
@@ -42,6 +44,7 @@ def confirm(mid, src):
         rc, patch = sh("git diff HEAD", cwd=wt)
     finally:
         sh("git -C %s worktree remove --force %s" % (REPO, wt))
+        shutil.rmtree(SCRATCH_CACHE, ignore_errors=True)
     ok = all(res.get(k) for k in ("demo_passes_without_change", "applies", "builds", "suite_passes_with_change", "demo_fails_with_change"))
     res["confirmed_at_repo_commit"] = sh("git -C %s rev-parse --short HEAD" % REPO)[1].strip()
     print(mid, "CONFIRMED" if ok else "REJECTED", json.dumps(res))
